@@ -19,6 +19,8 @@ func runFamily(fam string, w *bufio.Writer, r *rng, id, size int, opt string) bo
 		genConv(w, r, id)
 	case "hist":
 		genHist(w, r, id)
+	case "convseq":
+		genConvSeq(w, r, id)
 	case "call":
 		switch opt {
 		case "", "general":
